@@ -93,11 +93,39 @@ def generate(rng, tier):
         cases.append({"text": text, "calls": calls, "vars": calls[0],
                       "limit": rng.choice([-2, -2, 0, 1, 2]), "filter": None})
         made += 1
+    # malformed / unusual directive arguments (a separate stream): missing `if`, non-Boolean literals,
+    # null, undefined variables, repeated arguments and repeated directives, raw variable values of any
+    # kind (the rule is handed the raw values): CoercionError or truthiness, as directive_arguments decides
+    nm = 80 if tier == "quick" else 1500
+    for _ in range(nm):
+        text, variables = gen_exec.gen_document(rng, pdir=0.5)
+        text = _mangle_directives(rng, text)
+        raw = {k: rng.choice([True, False, None, 0, 1, "", "x", [], [0], 0.0, 2.5]) for k in variables}
+        if raw and rng.random() < 0.3:
+            raw.pop(rng.choice(sorted(raw)))
+        cases.append({"text": text, "vars": raw, "limit": rng.choice([-2, -2, 0, 1, 2]), "filter": None})
     maxd = 3 if tier == "quick" else 5
     for text, d in _distributions(maxd):
         for limit in ((d - 1, d) if tier == "quick" else range(0, d + 2)):
             cases.append({"text": text, "vars": {}, "limit": limit, "filter": None})
     return cases
+
+
+_MANGLED = ["@skip", "@include", "@skip(if: 1)", "@include(if: 0)", '@skip(if: "true")', "@include(if: null)",
+            "@skip(if: $undef)", "@skip(if: true, if: false)", "@include(if: false, if: true)",
+            "@skip(if: false) @skip(if: true)", "@include(if: true) @include(if: false)", "@skip(if: [true])",
+            "@skip(if: {a: true})", "@skip(if: TRUE)", "@skip(unless: true)", "@skip(if: true, unless: 1)",
+            "@other(if: false)", "@include(if: 1.0)"]
+
+
+def _mangle_directives(rng, text):
+    """replace some of the directives of a generated document (or add one to a field) by an unusual form"""
+    def sub(m):
+        return rng.choice(_MANGLED) if rng.random() < 0.5 else m.group(0)
+    out = re.sub(r"@(?:skip|include)\(if: [^)]*\)", sub, text)
+    if out == text:
+        out = re.sub(r"\b(hero|friends|a|b|c|d)\b(?![:(])", lambda m: m.group(0) + " " + rng.choice(_MANGLED), text, count=1)
+    return out
 
 
 def _calls(case):
